@@ -990,10 +990,96 @@ static std::u32string long_text(uint64_t i)
 
 static std::string show(const std::string &fmt, const char *args) { return strf("format %s  args %s", vf::vis(fmt).c_str(), args); }
 
+
+// ----------------------------------------------------------------------------- build-time default validation (round 10)
+// Built with -DST_DEFAULT_VALIDATION=ST::substitute_invalid (variant "plain+default=substitute_invalid"): ST::format repairs
+// ill-formed bytes under the configured default, and a wide stream must receive the transcoding of those repaired bytes.  The
+// ill-formed text is one whole argument between ASCII literals, so repairing the complete output and repairing it piece by piece
+// are the same thing; narrow sinks (which write the bytes as they are) are not part of this stage.
+#ifdef VF_C17_DEFAULT_SUBST
+static const char *const DM_BAD[] = {"\xFF", "\x80", "\xC3", "\xE2\x82", "\xF0\x9F\x98", "a\xA9", "\xC3\x41", "\xF8\x88\x80\x80\x80",
+                                     "\xC3\xA9\xFF", "\xFF\xE2\x82\xAC", "ok", "\xC3\xA9"};
+enum { DM_NBAD = sizeof DM_BAD / sizeof *DM_BAD, DM_NFMT = 4, DM_NARG = 3 };
+static const char *const DM_FMT[DM_NFMT] = {"{}", "a{}b", "<{}> {}", "{}{}"};
+template <class C, class F>
+static void dm_wide(Ctx &c, const char *nm, const std::string &R, const std::basic_string<C> &want, const char *fmt, const char *bad,
+                    int argkind, F &&call)
+{
+    std::basic_ostringstream<C> os;
+    vf::Outcome o = vf::guard([&] { call(os); });
+    VF_COUNT("validated");
+    VF_COUNT("ops");
+    if (!o.ok())
+        fail(c, strf("%s:default=substitute_invalid:throws-%s", nm, vf::outkind_name(o.kind)),
+             strf("format %s with the ill-formed argument %s (kind %d): ST::format returned %s, %s threw %s", vf::vis(fmt).c_str(),
+                  vf::vis(bad).c_str(), argkind, vf::vis(R).c_str(), nm, o.str().c_str()));
+    else if (os.str() != want)
+        fail(c, strf("%s:default=substitute_invalid:differs", nm),
+             strf("format %s with the ill-formed argument %s (kind %d): ST::format returned %s, %s wrote %zu units where the transcoding has %zu",
+                  vf::vis(fmt).c_str(), vf::vis(bad).c_str(), argkind, vf::vis(R).c_str(), nm, os.str().size(), want.size()));
+    else if (os.rdstate() != 0)
+        fail(c, strf("%s:default=substitute_invalid:stream-state", nm), strf("rdstate=%d", (int)os.rdstate()));
+}
+template <class A>
+static void dm_run(Ctx &c, const char *fmt, const char *bad, int argkind, const A &arg)
+{
+    std::string R;
+    vf::Outcome fo = vf::guard([&] {
+        ST::string s = ST::format(fmt, arg, 7);
+        R.assign(s.c_str(), s.size());
+    });
+    VF_COUNT("ops");
+    if (!fo.ok()) {
+        VF_COUNT("validated");
+        fail(c, strf("format:default=substitute_invalid:throws-%s", vf::outkind_name(fo.kind)),
+             strf("format %s with %s (kind %d): %s", vf::vis(fmt).c_str(), vf::vis(bad).c_str(), argkind, fo.str().c_str()));
+        return;
+    }
+    std::u32string want32;
+    if (!ref17::dec8(R, want32)) {
+        vf::count_dyn("out:default-mode:skipped(tolerated-form)");
+        return;
+    }
+    for (const char *q = bad; *q; ++q)
+        if ((unsigned char)*q >= 0x80) c.nontrivial();
+    std::wstring wantw;
+    for (char32_t ch : want32) wantw += (wchar_t)ch;
+    std::u16string want16 = through_stream(ref17::to16(want32));
+    dm_wide<wchar_t>(c, "writef<wchar_t>", R, wantw, fmt, bad, argkind, [&](std::wostream &os) { ST::writef(os, fmt, arg, 7); });
+    dm_wide<char16_t>(c, "writef<char16_t>", R, want16, fmt, bad, argkind,
+                      [&](std::basic_ostream<char16_t> &os) { ST::writef(os, fmt, arg, 7); });
+    dm_wide<char32_t>(c, "writef<char32_t>", R, want32, fmt, bad, argkind,
+                      [&](std::basic_ostream<char32_t> &os) { ST::writef(os, fmt, arg, 7); });
+}
+static void dm_case(Ctx &c, uint64_t i)
+{
+    unsigned k = (unsigned)vf::take(i, DM_NBAD), f = (unsigned)vf::take(i, DM_NFMT), a = (unsigned)vf::take(i, DM_NARG);
+    const char *bad = DM_BAD[k];
+    const char *fmt = DM_FMT[f];
+    switch (a) {
+    case 0: return dm_run(c, fmt, bad, 0, bad);                                              // const char *
+    case 1: return dm_run(c, fmt, bad, 1, ST::string::from_validated(bad, strlen(bad)));    // a string holding the bytes as they are
+    default: return dm_run(c, fmt, bad, 2, std::string(bad));                                // std::string
+    }
+}
+#endif
+
 static void build(vf::Plan &plan, const vf::Opts &o)
 {
     selftest();
     if (o.replay) setvbuf(stdout, nullptr, _IONBF, 0);
+#ifdef VF_C17_DEFAULT_SUBST
+    plan.rule = "cases = (ill-formed or well-formed text, format string, argument type); non-trivial = the argument holds a byte >= 0x80";
+    plan.assumptions = {"build with ST_DEFAULT_VALIDATION=ST::substitute_invalid; only the wide-stream clause is compared (the transcoding of ST::format's bytes); the ill-formed text is one whole argument between ASCII literals"};
+    plan.stage(strf("default=substitute_invalid: %u texts x %u format strings x %u argument types, ST::format vs writef to 3 wide stream types", (unsigned)DM_NBAD, (unsigned)DM_NFMT, (unsigned)DM_NARG),
+               (uint64_t)DM_NBAD * DM_NFMT * DM_NARG, [](uint64_t i, Ctx &c) { dm_case(c, i); },
+               [](uint64_t i) {
+                   unsigned k = (unsigned)vf::take(i, DM_NBAD), f = (unsigned)vf::take(i, DM_NFMT), a = (unsigned)vf::take(i, DM_NARG);
+                   return strf("format %s  text %s  argument kind %u (0 const char*, 1 ST::string holding the bytes, 2 std::string)", vf::vis(DM_FMT[f]).c_str(), vf::vis(DM_BAD[k]).c_str(), a);
+               });
+    (void)o;
+    return;
+#endif
     plan.rule = "format stages: cases = (format string, argument list) pairs; non-trivial = ST::format accepted the call and the output contains padding or a non-ASCII byte.  stream stages: non-trivial = text with a multi-unit character (insertion) / contents with a token that is invalid or at least 3 units of content (extraction)";
     plan.assumptions = {
         "ST::format's bytes are the reference; calls it rejects are not compared (C10)",
